@@ -359,7 +359,12 @@ def calculate_nd_frequencies(
     frequencies = frequencies.astype(dtype)  # Automatically copy
     frequencies = frequencies[ixgrid]
     if weights is not None:
-        missing = weights.sum() - frequencies.sum()
+        counts, _ = np.histogramdd(data, edges)
+        if counts[ixgrid].sum() == data.shape[0]:
+            # Every row is in a bin: the difference of the two sums would be rounding noise only
+            missing = frequencies.dtype.type(0)
+        else:
+            missing = weights.sum() - frequencies.sum()
         err_freq, _ = np.histogramdd(data, edges, weights=weights**2)
         errors2 = err_freq[ixgrid].astype(dtype)  # Automatically copy
     else:
